@@ -113,6 +113,9 @@ class Geometric(DiscreteRandomVariable):
         return 1/self.p
 
     def sample(self):
+        if self.p == 1:
+            # Success on the first trial; log(1-p) is undefined.
+            return 1
         return math.ceil(math.log(1-unit())/math.log(1-self.p))
 
     def __str__(self):
